@@ -108,6 +108,8 @@ func (o *overlayFeatures) Feature() b6.Feature {
 }
 
 func (o *OverlayWorld) FindFeatures(q b6.Query) b6.Features {
+	// Neither layer can see features that only exist in the other
+	q = b6.ResolveFeatureQueries(q, o)
 	return newOverlayFeatures(o.base.FindFeatures(q), o.overlay.FindFeatures(q), o.overlay)
 }
 
